@@ -98,7 +98,7 @@ func typeOfBase(base int, ext bool) string {
 }
 
 func runC07(r *Run, rng *Rng, thorough bool) {
-	rounds := 12
+	rounds := 40
 	if thorough {
 		rounds = 400
 	}
